@@ -13,7 +13,7 @@ GEN[name]: module, quick, thorough (cfg), kind (harness replayer), simulate_quic
 import json, os, glob, importlib.util
 
 HOOK_COMMITS = ["563de8a"]
-DESIGN, GEN, PROPS, SELFTESTS = {}, {}, {}, []
+DESIGN, GEN, PROPS, LEMMAS, SELFTESTS = {}, {}, {}, {}, []
 
 _here = os.path.dirname(os.path.abspath(__file__))
 for _p in sorted(glob.glob(os.path.join(_here, "propdefs", "*.py"))):
@@ -22,6 +22,7 @@ for _p in sorted(glob.glob(os.path.join(_here, "propdefs", "*.py"))):
     _spec.loader.exec_module(_m)
     DESIGN.update(getattr(_m, "DESIGN", {}))
     GEN.update(getattr(_m, "GEN", {}))
+    LEMMAS.update(getattr(_m, "LEMMAS", {}))
     PROPS.update(getattr(_m, "PROPS", {}))
     SELFTESTS += getattr(_m, "SELFTESTS", [])
 
